@@ -152,6 +152,7 @@ def run(out):
              ('forms-deep', dict(constants=dict(base, MaxTok=6 if quick else 8, MaxGroups=0, FormIdx={1, 5, 9, 12, 16} if quick else {1, 5, 9, 10, 12, 16}))),
              ('forms-simulated', dict(constants=dict(base, MaxTok=18 if quick else 30, MaxGroups=2, MaxReps=2, FormIdx=set(range(1, 22))),
                                       simulate=3 if quick else 60, depth=22 if quick else 36, seed=out.seed))]
+    _grammar_layout(out, quick)
     tid0 = 0
     for name, kw in insts:
         r = common.run_tlc('FormatGen', timeout=3000, heap='12g', **kw)
@@ -203,8 +204,87 @@ def run(out):
             out.sample({'abbr': t['abbr'], 'row': t['row'], 'events': t['events'][:5]})
 
 
+def _grammar_chunk(vecs):
+    import emmet
+    row = ROWS[7]
+    bad, traces, ndiff, examples = [], [], 0, []
+    for tid, v in vecs:
+        case = {'abbr': v['s'], 'row': 'html-defaults (grammar)', 'flags': {}}
+        try:
+            with common.Alarm(10):
+                out = emmet.expand(v['s'], {'options': {'output.selfClosingStyle': 'xhtml'}})      # <x /> - in html style a self-closed element looks like an open tag
+        except Exception as ex:
+            bad.append(('expand raised', dict(case, exception=type(ex).__name__, site=common.innermost_emmet_frame(ex))))
+            continue
+        if out != v['fmt']:
+            ndiff += 1
+            if len(examples) < 3:
+                examples.append(v['s'])
+        try:
+            got = _content(out, row)
+            want = _content(v['fmt'], row)
+            ev = _events(out, row)
+        except ph.LexError as ex:
+            bad.append(('output is not well-formed markup', dict(case, output=out, lexer=str(ex))))
+            continue
+        if got != want:
+            bad.append(('content differs', dict(case, expected=want, actual=got, output=out, model_output=v['fmt'])))
+            continue
+        flags = {'multiline_text_with_children': False, 'leaf_inner_break': False, 'field_text_with_children': False}
+        traces.append({'tid': tid, 'abbr': v['s'], 'row': 'html-defaults', 'flags': flags, 'indent_clause': True, 'events': ev, 'output': out})
+    return [('BAD', bad), ('TRACES', traces), ('DIFF', (ndiff, examples))]
+
+
+def _grammar_layout(out, quick):
+    """the transcribed pipeline up to the HTML formatter with formatting on (AbbrPrint.tla: PrintedFmt): TLC checks the layout clause
+    on the model's own output for every abbreviation of the instance (LayoutInv); the real output must carry the same content, goes
+    through the layout monitor like every other output, and is compared byte for byte with the model's (a difference in white space
+    alone is a diagnostic: the statement fixes the indentation, not where lines are broken)"""
+    consts = dict(NameFr={"x", "em", "", "p", "span", "div"}, ModFr={".c", "{t}"}, RepFr={"*2", "*3"}, OpFr={">", "+", "^"}, MaxGroups=1, MaxMods=1,
+                  MaxFrag=5 if quick else 6, ScChild=False, SelfClosingStyle='xhtml', TreeOnly=False, RepeatLimit=1000000)
+    r = common.run_tlc('AbbrGrammar', cfg='AbbrGrammarLayout', constants=consts, timeout=3000, heap='12g')
+    name = 'grammar-layout'
+    if r.violated:
+        out.add_tlc(name, r)
+        out.violation('spec-invariant %s violated in the model of the formatter' % r.violated, {'instance': name, 'tlc': r.error[:3000]})
+        return
+    vecs = {}
+    for v in r.vectors():
+        vecs.setdefault(v['s'], v)
+    r.tagged = {}
+    items = [(10 ** 7 + i, v) for i, v in enumerate(vecs.values())]
+    if quick:
+        items = common.sample(items, 6000, out.seed, key=lambda kv: kv[1]['s'])
+    res = common.pool_map(_grammar_chunk, items, chunk=500)
+    traces, ndiff, examples = [], 0, []
+    for what, payload in res:
+        if what == 'BAD':
+            for w, case in payload:
+                out.violation(w, case)
+        elif what == 'TRACES':
+            traces += payload
+        else:
+            ndiff += payload[0]
+            examples += payload[1]
+    slim = [{'tid': t['tid'], 'indent_clause': True, 'events': t['events']} for t in traces]
+    verdicts, r2 = common.validate_traces('Trace_Format', slim, heap='5g', batch_events=40000, parallel=4)
+    out.add_tlc(name, r, abbreviations=len(items), model_output_differs_from_code={'count': ndiff, 'examples': examples[:5]})
+    out.add_tlc(name + '-trace-validation', r2, traces=len(traces))
+    out.traces += len(traces)
+    out.evaluations += len(items)
+    if ndiff:
+        out.diag('model-vs-code: formatted output', ndiff)
+    by = {t['tid']: t for t in traces}
+    for k, vd in verdicts.items():
+        if vd[0] == 'REJECT':
+            t = by[k]
+            out.violation('format: ' + vd[2], {'abbr': t['abbr'], 'row': t['row'], 'flags': t['flags'], 'event_index': vd[1], 'output': t['output']})
+
+
 def replay(case):
     import emmet
     c = case['case']
+    if c['row'].endswith('(grammar)'):
+        return 'expand(%r) ->\n%s' % (c['abbr'], emmet.expand(c['abbr'], {'options': {'output.selfClosingStyle': 'xhtml'}}))
     row = [r for r in ROWS if r['name'] == c['row']][0]
     return 'expand(%r, row %s) ->\n%s' % (c['abbr'], row['name'], emmet.expand(c['abbr'], _cfg(row)))
